@@ -393,13 +393,9 @@ class ReviseAnno:
             self.update_data_frame(seed_row)
 
             # Seed element has laready been dropped from search and seed array
-            # Get ready to move on to the next seed element
-            if seed_idx == self.seed_max_index:
-                # Return because we are done with all elements
-                return
-            else:
-                # Move to next element
-                self.call_merge()
+            # Move to next element, call_merge returns once the seed frame is
+            # empty (row labels say nothing about which element is last)
+            self.call_merge()
 
     def hit_scan_overlapping(self, seed_start, seed_stop):
         """
